@@ -35,12 +35,22 @@ def contents(rng):
         p = geo.base_params(e, eu, pl, L=rng.choice([5, 20]), n=rng.choice([1, 2]))
         p['Print Output to Console'] = i % 2
         pool[f'ok{i}'] = geo.params_to_text(p)
+    # a near pair (same time grid, other fracture separation): the client serves them one after the other in ONE process, the command line starts fresh
+    from .c08 import pool_contents as _c08_pool
+    import random as _random
+    c8 = _c08_pool(_random.Random(0))
+    pool['mpf-a'], pool['mpf-b'] = c8['mpf-a'], c8['mpf-b']
     b = geo.base_params(2, 1, 1)
     b['Reservoir Depth'] = 300
     pool['badrange'] = geo.params_to_text(b)
     b = geo.base_params(2, 1, 1)
     b.update({'Gradient 1': 5, 'Reservoir Depth': 0.5})
     pool['badcalc'] = geo.params_to_text(b)
+    # a failure path that ends in a bare sys.exit(): user-provided reservoir profile whose file does not exist
+    b = geo.base_params(2, 1, 1)
+    b.pop('Drawdown Parameter', None)
+    b.update({'Reservoir Model': 5, 'Reservoir Output File Name': '/nonexistent/profile.txt'})
+    pool['badfile'] = geo.params_to_text(b)
     return pool
 
 
@@ -86,16 +96,21 @@ def _client(text):
     return {'ok': r['ok'], 'digest': digest(r['report']) if r['ok'] else None, 'error': r['error'], 'report': r['report'] if r['ok'] else None}
 
 
+def _client_seq(texts):
+    return [_client(t) for t in texts]
+
+
 def evaluate(chk: core.Check, n_cases):
     rng = chk.rng
     pool = contents(rng)
-    ref = dict(zip(pool, geo.pmap(_client, list(pool.values()), chk.scratch)))
+    # the client's answers come from ONE process that serves all the contents in turn (as a client session does)
+    ref = dict(zip(pool, geo.pmap(_client_seq, [list(pool.values())], chk.scratch)[0]))
     jobs = []
     k = 0
     combos = [(c, s, st) for c in pool for s in SHAPES for st in ('start', 'sub', 'root')]
     rng.shuffle(combos)
     # every shape at least once with a succeeding and a failing input
-    must = [(c, s, 'start') for s in SHAPES for c in ('ok0', 'badrange')]
+    must = [(c, s, 'start') for s in SHAPES for c in ('ok0', 'badrange')] + [('badfile', 'default', 'start'), ('badfile', 'absolute', 'sub'), ('badcalc', 'relative', 'start'), ('mpf-b', 'relative', 'start'), ('mpf-a', 'absolute', 'sub')]
     for (c, s, st) in (must + combos)[:n_cases]:
         jobs.append((str(Path(chk.scratch) / f'cli{k}'), c, pool[c], s, st))
         k += 1
